@@ -6,6 +6,7 @@ import os
 import re
 import vlib
 import sim_common
+import mpi_common
 
 
 def run(tier, seed):
@@ -20,14 +21,41 @@ def run(tier, seed):
             rep = dict(cases[i])
             rep["pseed"] = cases[i]["pseed"] + 999
             cases[i + per - 1] = rep
+        for c in cases:
+            c["env"] = {"VM_FORCE_DEST": "2"}   # same destination law as the multi-rank runs of the same models below
         recs = sim_common.run_sim_cases(chk, cases, timeout=300)
     finally:
         del os.environ["VM_FORCE_RNG"]
     classes = {}
+
+    def outcome(texts):
+        d = {}
+        for t in texts:
+            for m in re.finditer(r"^LPD (\d+) ([0-9a-f]+)$", t, re.M):
+                d[int(m.group(1))] = m.group(2)
+        return ";".join("%d:%s" % kv for kv in sorted(d.items())) if d else None
+
     for c, res, rec, anomaly in recs:
-        m = re.search(r"^RESULT (\d+) ([0-9a-f]+)$", res.out, re.M)
-        if m:
-            classes.setdefault(int(m.group(1)), []).append((m.group(2), c, res))
+        o = outcome([res.out])
+        if o and not anomaly:
+            classes.setdefault((c["mseed"], c["size"]), []).append((o, dict(c, ranks=1), res))
+    # the same models on 2 and 3 ranks (RNG stream must not depend on the hosting rank)
+    os.environ["VM_FORCE_RNG"] = "1"
+    try:
+        chk.soft_fraction = 0.35
+        base = cases[0]["mseed"]
+        mcases = mpi_common.make_cases("C09", tier, seed, 10 if tier == "quick" else 200, variants=(0,), fault_rates=(0, 40), model_base=base, same_model_group=2,
+                                       layouts=[(2, 2), (3, 1), (2, 1), (3, 2)])
+        for c in mcases:
+            c["size"] = (0, 0, 1)[(c["mseed"] - base) % 3]   # same size class as the single-node runs of that model
+            c["dest"] = 2
+        for c, res, texts, anomaly in mpi_common.run_mpi_cases(chk, mcases, timeout=30 if tier == "quick" else 90, retries=0):
+            o = outcome(texts)
+            if o and not anomaly:
+                classes.setdefault((c["mseed"], c["size"]), []).append((o, c, res))
+                chk.stats["multi_rank_runs_in_classes"] = chk.stats.get("multi_rank_runs_in_classes", 0) + 1
+    finally:
+        del os.environ["VM_FORCE_RNG"]
     sizes = []
     for ms, lst in classes.items():
         sizes.append(len(lst))
@@ -35,13 +63,13 @@ def run(tier, seed):
         for d, c, res in lst:
             digs.setdefault(d, []).append(c)
         if len(digs) > 1:
-            cfgs = [{k: v[0][k] for k in ("threads", "ckpt", "gvt", "pseed", "flavour")} for v in digs.values()]
-            chk.violation("result-depends-on-configuration", "model %d: %d different outcomes over %d runs, e.g. configurations %s" % (ms, len(digs), len(lst), cfgs[:3]),
-                          {"model_seed": ms, "outcomes": {d: [{k: c[k] for k in ("threads", "ckpt", "gvt", "pseed", "fp", "flavour")} for c in v] for d, v in digs.items()}})
+            cfgs = [{k: v[0].get(k) for k in ("ranks", "threads", "ckpt", "gvt", "pseed", "flavour")} for v in digs.values()]
+            chk.violation("result-depends-on-configuration", "model %s: %d different outcomes over %d runs, e.g. configurations %s" % (ms, len(digs), len(lst), cfgs[:3]),
+                          {"model_seed": ms, "outcomes": {d[:60]: [{k: c.get(k) for k in ("ranks", "threads", "ckpt", "gvt", "pseed", "fp", "flavour")} for c in v] for d, v in digs.items()}})
     chk.stats["equivalence_classes"] = len(classes)
     chk.stats["runs_in_classes"] = sum(sizes)
     chk.rule = ("one class = one generated model whose every decision comes from the library generator, run under %d configurations (threads 1..16, "
                 "checkpoint interval auto/1..64, GVT period 0..100 ms, one exact repetition); non-trivial run = rollbacks with coasting forward happened "
                 "(the stream had to be replayed); distinct = schedule signature" % per)
-    chk.assumptions = ["ranks are varied by the mpi engine (C02), not here", "core binding is not varied (it does not reach any code beyond thread affinity)"]
-    return chk.finish(min_evals=20, require={"equivalence_classes": 5, "rollbacks": 100, "silent_executions": 1000, "c01_lps_compared": 100})
+    chk.assumptions = ["core binding is not varied (it does not reach any code beyond thread affinity)", "multi-rank runs share the host (one machine)"]
+    return chk.finish(min_evals=20, require={"equivalence_classes": 5, "multi_rank_runs_in_classes": 2, "rollbacks": 100, "silent_executions": 1000, "c01_lps_compared": 100})
